@@ -1,5 +1,294 @@
-"""History generator for C10 (private tables)."""
+"""History generator for C10: private tables next to the public one (DESIGN 2.3, 5/C10)."""
+import random
+
+from . import events as E
+from . import model as M
+
+FORMULAS = ["H2O", "CaCO3+6H2O", "D2O", "H[2]2O", "Fe{2+}O", "Ni[58]{3+}Cl3", "NaCl // H2O",
+            "5wt% NaCl // H2O", "(CH2)8", "Fe2(SO4)3", "T2O", "50vol% D2O@1.1 // H2O@1", "Gd[155]2O3",
+            "1mm Fe // 2mm Ni", "5g NaCl // 50mL H2O@1", " ", "n", "U[235]O2"]
+FASTA = ["aa:AVG", "dna:ACGT", "rna:ACGU"]
+FORMULA_HOW = ["str", "str", "density", "parse", "copy", "pickle", "deepcopy", "add"]
+
+DATALESS = [[43, 0, 0], [118, 0, 0], [61, 0, 0], [85, 0, 0], [43, 98, 0]]     # atoms without neutron data
+WITH_NEUTRON = [[26, 0, 0], [26, 56, 0], [1, 0, 0], [1, 2, 0], [64, 0, 0], [79, 0, 0], [79, 197, 0], [28, 58, 0]]
+ENERGY_DEP = [[64, 0, 0], [64, 155, 0], [71, 0, 0], [71, 176, 0], [62, 149, 0], [48, 113, 0]]
+MAGNETIC = [[26, 0, 0], [28, 0, 0], [25, 0, 0], [64, 0, 0], [27, 0, 0]]
+ACTIVATED = [[27, 59, 0], [79, 197, 0], [11, 23, 0], [26, 58, 0], [13, 27, 0]]
+CRYSTAL = [[26, 0, 0], [29, 0, 0], [13, 0, 0], [6, 0, 0]]
+
+
+def gen_mutation(rng, V, tbl, pred, allow_known):
+    props = pred.tprops.get(tbl, set())
+    choices = [("_mass", V.atom(rng, "el")), ("_density", V.atom(rng, "el")),
+               ("_abundance", V.atom(rng, "iso")),
+               ("covalent_radius", V.atom(rng, "el")), ("covalent_radius_uncertainty", V.atom(rng, "el")),
+               ("K_alpha", rng.choice([[29, 0, 0], [28, 0, 0], [42, 0, 0], [1, 0, 0]])),
+               ("K_beta1", [29, 0, 0]),
+               ("crystal_structure_assign", rng.choice(CRYSTAL)),
+               ("density_caveat", V.atom(rng, "el"))]
+    if "neutron" in props:
+        choices += [("neutron_assign", rng.choice(WITH_NEUTRON)), ("neutron_field", rng.choice(WITH_NEUTRON)),
+                    ("neutron_field", rng.choice(WITH_NEUTRON)),
+                    ("nsf_table_inplace", rng.choice(ENERGY_DEP)), ("nuclear_spin", [26, 56, 0])]
+        if allow_known:
+            choices += [("neutron_field_dataless", rng.choice(DATALESS))]
+    else:
+        choices += [("neutron_assign", rng.choice(WITH_NEUTRON))] if "mass" in props and "density" in props else []
+    if "crystal_structure" in props:
+        choices += [("crystal_structure_inplace", rng.choice(CRYSTAL))] * 2
+    if "magnetic_ff" in props:
+        choices += [("magnetic_ff_field", rng.choice(MAGNETIC)), ("magnetic_ff_dict", rng.choice(MAGNETIC))]
+    choices += [("magnetic_ff_assign", rng.choice(MAGNETIC))]
+    if "activation" in props and "mass" in props:
+        choices += [("activation_row_field", rng.choice(ACTIVATED)), ("activation_list", rng.choice(ACTIVATED)),
+                    ("activation_assign", rng.choice(ACTIVATED))]
+    if "xray" in props:
+        choices += [("xray_newfield", V.atom(rng, rng.choice(["el", "ion"]))),
+                    ("xray_sftable_inplace", rng.choice([[26, 0, 0], [29, 0, 0], [26, 0, 2]]))]
+    if "mass" in props:
+        choices += [("add_isotope", [26, 0, 0])]
+    target, atom = rng.choice(choices)
+    ev = ["mutate", tbl, atom, target]
+    if target == "add_isotope":
+        ev.append(rng.choice([40, 99]))
+    return ev
+
+
+def table_script(rng, V, tbl, cfg, pred_hint):
+    """Open-loop script of one PrivateTableBuilder (+ optional reader/mutator/formula clients on T)."""
+    evs = [["newtable", tbl]]
+    order = list(M.GROUPS9)
+    rng.shuffle(order)
+    k = rng.choice([2, 4, 6, 9, 9, 9])
+    order = order[:k]
+    if cfg["respect_prereq"][tbl]:
+        for need, g in (("mass", "neutron"), ("density", "neutron"), ("mass", "activation")):
+            if g in order:
+                if need not in order:
+                    order.insert(0, need)
+                if order.index(need) > order.index(g):
+                    order.remove(need)
+                    order.insert(order.index(g), need)
+    inits = [["init", tbl, g, False] for g in order]
+    if cfg["retry"][tbl]:
+        missing = [g for g in M.GROUPS9 if g not in order]
+        rng.shuffle(missing)
+        inits += [["init", tbl, g, False] for g in missing]
+        inits += [["init", tbl, g, False] for g in order if g in ("neutron", "activation")]
+        if rng.random() < 0.3:
+            inits += [["init", tbl, rng.choice(order), True]]
+    evs += inits
+    return evs
 
 
 def gen(seed, V, tier, index, bias=None):
-    raise NotImplementedError
+    rng = random.Random(seed)
+    ntab = 1 if rng.random() < 0.6 else 2
+    tables = ["T1", "T2"][:ntab]
+    fam = {f: rng.random() < p for f, p in (
+        ("mutator", 0.5), ("pub_reader", 0.6), ("pub_calc", 0.4), ("importer", 0.25), ("pub_init", 0.25),
+        ("formula", 0.5), ("pickler", 0.3), ("t_reader", 0.5), ("walker", 0.3), ("prober", 0.2))}
+    cfg = {"tables": tables, "families": sorted(f for f, on in fam.items() if on),
+           "respect_prereq": {t: rng.random() < 0.5 for t in tables},
+           "retry": {t: rng.random() < 0.5 for t in tables},
+           "public_late": rng.random() < 0.5,
+           "allow_known": rng.random() < 0.15,
+           "two_nodes": fam["pickler"] and rng.random() < 0.5}
+    strata = c10_strata()
+    prefix = []
+    if index < len(strata):
+        prefix = [list(e) for e in strata[index]]
+        cfg["stratum"] = index
+
+    scripts = {}
+    for t in tables:
+        scripts[t] = table_script(rng, V, t, cfg, None)
+    if prefix:
+        # the stratum already creates T1 and issues its own init
+        scripts["T1"] = [e for e in scripts["T1"] if e[0] != "newtable"]
+
+    # public client script
+    pub = []
+    npub = rng.choice([0, 1, 2, 4, 6])
+    for _ in range(npub):
+        r = rng.random()
+        if fam["pub_reader"] and r < 0.5:
+            pub.append(E.gen_read(rng, V))
+        elif fam["pub_calc"] and r < 0.75:
+            pub.append(E.gen_calc(rng, V, which=rng.choice(
+                ["nscat", "nsld", "xsld", "volume", "activation", "emission_table", "list", "mff", "f0", "fasta_const"])))
+        elif fam["importer"] and r < 0.85:
+            pub.append(["import", rng.choice(E.IMPORTS)])
+        elif fam["pub_init"] and r < 0.95:
+            pub.append(["init", "public", rng.choice(E.INIT_GROUPS), rng.random() < 0.2])
+        elif fam["prober"]:
+            pub.append(["probe", "public", V.atom(rng), rng.choice(E.PROBES)])
+        else:
+            pub.append(E.gen_read(rng, V))
+
+    # interleave: seeded weighted choice among the open-loop scripts
+    queues = [scripts[t] for t in tables]
+    if not cfg["public_late"]:
+        queues.append(pub)
+    merged = list(prefix)
+    while any(queues):
+        live = [q for q in queues if q]
+        q = rng.choice(live)
+        merged.append(q.pop(0))
+    if cfg["public_late"]:
+        merged += pub
+
+    # second phase: clients that use the tables (their choices follow the *predicted* state)
+    pred = M.Predict()
+    fired = {}
+    for ev in merged:
+        f = pred.feed(ev)
+        if f:
+            fired[f] = fired.get(f, 0) + 1
+    extra = []
+    nextra = rng.choice([0, 2, 4, 8, 12])
+    msg = 0
+    for _ in range(nextra):
+        t = rng.choice(tables)
+        r = rng.random()
+        if fam["mutator"] and r < 0.3:
+            ev = gen_mutation(rng, V, t, pred, cfg["allow_known"])
+        elif fam["walker"] and r < 0.4:
+            gs = [g for g in pred.tprops.get(t, ()) if g in E.LAZY_GROUPS]
+            if not gs:
+                continue
+            ev = ["mutate_walk", t, rng.choice(sorted(gs)), rng.randrange(10000), "instance"]
+        elif fam["formula"] and r < 0.6:
+            s = rng.choice(FORMULAS) if rng.random() < 0.7 else V.formula(rng)
+            if cfg["allow_known"] and rng.random() < 0.3:
+                s = rng.choice(FASTA)
+            which = rng.random()
+            tt = rng.choice(tables + ["public"])
+            if which < 0.6:
+                ev = ["formula", tt, s, rng.choice(FORMULA_HOW)]
+            elif which < 0.75:
+                ev = ["mix", tt, rng.choice(["weight", "volume"]), ["H2O@1", 1, "D2O@1.1", 2]]
+            elif which < 0.9:
+                ev = ["change_table", tt, s, rng.choice(tables + ["public"])]
+            else:
+                ev = ["change_atom", tt, V.atom(rng), rng.choice(tables + ["public"])]
+        elif fam["t_reader"] and r < 0.8:
+            if rng.random() < 0.6:
+                ev = E.gen_read(rng, V, tbl=t)
+                if ev[2][1] and "mass" not in pred.tprops.get(t, ()):
+                    ev[2][1] = 0     # no isotopes before mass.init(T)
+            else:
+                ev = E.gen_calc(rng, V, tbl=t, which=rng.choice(["nscat", "xsld", "volume", "mass", "activation", "list", "emission_table"]))
+        elif fam["pickler"] and r < 0.95:
+            msg += 1
+            at = V.atom(rng)
+            if at[1] and "mass" not in pred.tprops.get(t, ()):
+                at[1] = 0
+            extra.append(["dump", msg, t, at, rng.choice([0, 2, 4, 5])])
+            ev = ["load", msg, t, at]
+        else:
+            ev = E.gen_read(rng, V)
+        f = pred.feed(ev)
+        if f:
+            fired[f] = fired.get(f, 0) + 1
+        extra.append(ev)
+        if rng.random() < 0.1:
+            extra.append(list(ev))       # retry
+    evs = merged + extra
+    # a duplicate table name is a failing operation that must change nothing
+    if rng.random() < 0.15:
+        evs.insert(rng.randrange(1, len(evs) + 1), ["newtable", rng.choice(tables)])
+    if rng.random() < 0.05:
+        evs.insert(rng.randrange(0, len(evs) + 1), ["newtable", "public"])
+    evs = evs[:44]
+    hist = [[0, e] for e in evs]
+    if cfg["two_nodes"]:
+        # pickles travel to a second interpreter; the scheduler decides when (and whether) the
+        # table exists there, duplicates deliveries and restarts the receiver
+        hist = []
+        loads = []
+        for e in evs:
+            if e[0] == "load":
+                loads.append(e)
+            else:
+                hist.append([0, e])
+        rng.shuffle(loads)                      # reordered delivery
+        recv = []
+        for t in tables:
+            if rng.random() < 0.75:
+                setup = [["newtable", t]]
+                if rng.random() < 0.7:
+                    setup.append(["init", t, "mass", False])
+                recv.append(setup)
+        tail = []
+        for e in loads:
+            tail.append([1, e])
+            if rng.random() < 0.2:
+                tail.append([1, list(e)])       # duplicate delivery
+        for setup in recv:
+            pos = rng.randrange(0, len(tail) + 1)
+            tail[pos:pos] = [[1, x] for x in setup]
+        if tail and rng.random() < 0.25:
+            pos = rng.randrange(0, len(tail) + 1)
+            tail.insert(pos, [1, ["restart"]])
+        # node 1 also uses its own public table a little
+        if rng.random() < 0.5:
+            tail.insert(rng.randrange(0, len(tail) + 1), [1, E.gen_read(rng, V)])
+        hist += tail
+    return {"prop": "C10", "seed": seed, "index": index, "cfg": cfg,
+            "events": hist, "predicted_fired": fired}
+
+
+_STRATA = None
+
+
+def c10_strata():
+    """Each (private init x public group pending/loaded) pair, each mutation target once."""
+    global _STRATA
+    if _STRATA is not None:
+        return _STRATA
+    out = []
+    pre = {"neutron": [["init", "T1", "mass", False], ["init", "T1", "density", False]],
+           "activation": [["init", "T1", "mass", False]]}
+    for g in M.GROUPS9:
+        for public_first in (False, True):
+            s = []
+            if public_first and g in E.LAZY_GROUPS:
+                s.append(["init", "public", g, False])
+            s.append(["newtable", "T1"])
+            s += pre.get(g, [])
+            s.append(["init", "T1", g, False])
+            out.append(s)
+    # failing init, then prerequisites, then one retry (O6)
+    out.append([["newtable", "T1"], ["init", "T1", "neutron", False], ["init", "T1", "mass", False],
+                ["init", "T1", "density", False], ["init", "T1", "neutron", False]])
+    out.append([["newtable", "T1"], ["init", "T1", "activation", False], ["init", "T1", "mass", False],
+                ["init", "T1", "activation", False]])
+    # assignment on a private atom while the public group is pending
+    for target, atom in (("covalent_radius", [26, 0, 0]), ("K_alpha", [29, 0, 0]),
+                         ("crystal_structure_assign", [26, 0, 0]), ("magnetic_ff_assign", [26, 0, 0])):
+        out.append([["newtable", "T1"], ["mutate", "T1", atom, target]])
+    full = [["newtable", "T1"]] + [["init", "T1", g, False] for g in
+                                   ["mass", "density", "neutron", "xray", "emission", "covalent_radius",
+                                    "crystal_structure", "magnetic_ff", "activation"]]
+    for target, atom in (("crystal_structure_inplace", [26, 0, 0]), ("neutron_field", [26, 0, 0]),
+                         ("nsf_table_inplace", [64, 0, 0]), ("magnetic_ff_field", [26, 0, 0]),
+                         ("magnetic_ff_dict", [26, 0, 0]), ("activation_row_field", [27, 59, 0]),
+                         ("activation_list", [27, 59, 0]), ("xray_newfield", [96, 0, 0]),
+                         ("xray_sftable_inplace", [26, 0, 0]), ("_mass", [96, 0, 0]), ("_density", [96, 0, 0])):
+        out.append(full + [["mutate", "T1", atom, target]])
+    for g in E.LAZY_GROUPS:
+        for k in (0, 1, 7):
+            out.append(full + [["mutate_walk", "T1", g, k, "instance"]])
+    # two tables, mutate one
+    two = full + [["newtable", "T2"]] + [["init", "T2", g, False] for g in
+                                        ["mass", "density", "neutron", "xray", "emission", "covalent_radius",
+                                         "crystal_structure", "magnetic_ff", "activation"]]
+    for g in E.LAZY_GROUPS:
+        out.append(two + [["mutate_walk", "T1", g, 3, "instance"]])
+    # the triggers of the open known findings, so that they are exercised (and attributed) every batch
+    out.append(full + [["mutate", "T1", [43, 0, 0], "neutron_field_dataless"]])
+    out.append([["newtable", "T1"], ["formula", "T1", "aa:AVG", "str"]])
+    _STRATA = out
+    return out
